@@ -346,6 +346,49 @@ func randType(r *Rng, depth int, c typeGenCfg) *tyNode {
 	}
 }
 
+// listStruct: a struct built around one list field - elements that are validated structs or
+// primitives, any per-field handling tag, a pre-filled value that is usually non-empty - next to
+// a validated primitive, so that lists are merged into existing storage and a later field can
+// still fail (random types reach this combination too rarely)
+func listStruct(r *Rng, c typeGenCfg) *tyNode {
+	intT := func() *tyNode { return &tyNode{Kind: "prim", Prim: primKinds[1]} }
+	strT := func() *tyNode { return &tyNode{Kind: "prim", Prim: primKinds[9]} }
+	vt := func(class string) string {
+		if !c.Validators || r.P(1, 3) {
+			return ""
+		}
+		ch := vtagChoices[class]
+		return ch[r.Intn(len(ch))]
+	}
+	var elem *tyNode
+	switch r.Intn(6) {
+	case 0:
+		elem = intT()
+	case 1:
+		elem = strT()
+	default:
+		elem = &tyNode{Kind: "struct", Fields: []tyField{
+			{GoName: "P", CTag: "p", VTag: vt("int"), T: intT()},
+			{GoName: "Q", CTag: "q", VTag: vt("string"), T: strT()}}}
+		if r.P(1, 4) {
+			elem = &tyNode{Kind: "ptr", Elem: elem}
+		}
+	}
+	tag := "l"
+	if c.Handling {
+		tag += []string{"", ",replace", ",append", ",prepend", ",merge"}[r.Intn(5)]
+	}
+	l := tyField{GoName: "L", CTag: tag, VTag: vt("slice"), T: &tyNode{Kind: "slice", Elem: elem}}
+	z := tyField{GoName: "Z", CTag: "z", VTag: vt("int"), T: intT()}
+	t := &tyNode{Kind: "struct"}
+	if r.Bool() {
+		t.Fields = []tyField{l, z}
+	} else {
+		t.Fields = []tyField{z, l}
+	}
+	return t
+}
+
 var fieldNames = []string{"A", "B", "C", "D", "E"}
 var cfgNames = []string{"", "", "", "x", "y", "n.m", "a", "k"}
 
